@@ -67,10 +67,13 @@ LEVEL_TEXT = (
     "(float_roundtrip, float_nan_stored, float_sentinel, float_inf); integers in the 32-bit range are stored as themselves, gaps "
     "use the integer no-data code, non-integral and out-of-range values are rejected, never altered (int_roundtrip, int_gap, "
     "nonintegral_reject, int_reject, int_accept_exact; the as-found silent wrap is refuted by int_wraps_counterexample and was "
-    "repaired); booleans only 0/1 (bool_*); accepted value maps keep every label and reserve key 0 for Unknown (valuemap_*); any "
+    "repaired); booleans only 0/1 (bool_*); accepted value maps keep every label, reserve key 0 for Unknown and hold only keys that fit the "
+    "unsigned 32-bit integer they are stored in (valuemap_*, valuemap_keys_fit; the as-found wrap of larger keys is "
+    "valuemap_wraps_counterexample and was repaired); an array shorter than the geometry is completed with the no-data code, "
+    "entry by entry beyond the array given (padTo: gap_float, gap_int, prefix_kept); any "
     "Unicode text survives UTF-8 (utf8_roundtrip, from core Lean). Tied to the code by per-entry differential runs incl. raw h5py reads."
 )
-LEVEL_NOTE = "Trusted: Lean kernel, harness, NumPy casting, h5py. The model is per entry; array-level rejection = any entry rejected (TypeError before ValueError), checked by correspondence."
+LEVEL_NOTE = "Trusted: Lean kernel, harness, NumPy casting, h5py. The model is per entry (plus the padding of short arrays); array-level rejection = any entry rejected (TypeError before ValueError), checked by correspondence."
 TECHNIQUE = "Lean 4 proof (case analysis, omega) on an executable codec model + per-entry differential correspondence with raw-file reads"
 
 FLOAT_POOL = [0.0, -0.0, 1.0, -2.5, 5e-324, 2.2250738585072014e-308, 1.17549435e-38, float(np.float32(1.17549435e-38)),
